@@ -35,6 +35,7 @@ let err_msg = function
   | EBadVersion -> "TypeFail: XML version must be either 1.0 or 1.1"
   | ENoRoot -> "TypeFail: XML doc tuples must have a root field"
   | ENotDocTuple -> "TypeFail: XML outputs must be a Tuple"
+  | ERootNotElement -> "TypeFail: XML doc root must be an element (a tuple with a name)"
   | EBadChar -> "TypeFail: XML text and attribute values can not contain control characters"
 
 let rec sexp_of_node = function
